@@ -2,6 +2,7 @@
 # runs every claimed check's quick (or $1) tier and prints one line each
 cd "$(dirname "$0")/.."
 tier=${1:-quick}
+mkdir -p out
 for f in checks/C*.json; do
   id=$(basename $f .json)
   s=$(date +%s)
